@@ -23,7 +23,8 @@ RULE = ("labels: every PSK order 2..2^12 / QAM order 4..4^6 / BPSK / QPSK x a "
         "magnitude class); non-trivial = at least one pair / integer decided.  "
         "Bit-error operands also come in different integer widths (one narrow, "
         "one 64-bit with values outside the narrow range). "
-        "Both bit-error operands in one narrow dtype (counts beyond that dtype); arrays that start with 0 and end with len-1 without being arange. ")
+        "Both bit-error operands in one narrow dtype (counts beyond that dtype); arrays that start with 0 and end with len-1 without being arange. "
+        "Numpy scalars of every integer width (form npscalar); uint64 bit-error operands with the top bit set. ")
 ASSUMPTIONS = ["popcount reference is Python's int.bit_count",
                "minimum-distance pairs: distance <= d_min(1+1e-9)"]
 
@@ -165,8 +166,14 @@ def ref_g2b(g):
 def check_codes(ctx, values, form, magcls):
     """values: list of Python ints (< 2^62, n+1 also < 2^62 assumed)."""
     vals = [int(v) for v in values]
-    if form == "pyint":
+    if form in ("pyint", "npscalar"):
         for n in vals:
+            if form == "npscalar":
+                # an element taken out of an index array: a numpy scalar of that
+                # array's dtype (the narrowest of these that holds n + 1)
+                fits = [t for t in (np.uint8, np.int16, np.uint16, np.int32, np.uint32, np.int64,
+                                    np.uint64) if n + 1 <= np.iinfo(t).max]
+                n = fits[(n + len(vals)) % len(fits)](n)
             okc, g = ctx.call("gray-inverse", CV.binary2gray, n, detail={"n": n})
             if not okc:
                 continue
@@ -184,7 +191,7 @@ def check_codes(ctx, values, form, magcls):
                        cls="b2g(g2b(n))!=n:" + magcls,
                        detail={"n": n, "g2b": int(b2), "ref": ref_g2b(n),
                                "form": form})
-            g1 = CV.binary2gray(n + 1)
+            g1 = CV.binary2gray(type(n)(int(n) + 1))
             ctx.ev("gray-adjacent", (int(g) ^ int(g1)).bit_count() == 1,
                    cls="adjacent", detail={"n": n, "g(n)": int(g), "g(n+1)": int(g1)})
         ctx.sig("codes", form, magcls)
@@ -241,7 +248,7 @@ def check_codes(ctx, values, form, magcls):
 
 
 FORMS = ["pyint", "int64", "int32", "0d", "2d-int64", "int16", "int8", "uint8",
-         "uint16", "uint32", "uint64"]
+         "uint16", "uint32", "uint64", "npscalar"]
 
 
 def case_codes_exhaustive(ctx, rng, idx):
@@ -276,8 +283,8 @@ def case_codes_random(ctx, rng, idx):
     vals = [min(v, 2 ** 62 - 2) for v in vals]
     mag = "2^%d" % (8 * (bits // 8))
     form = FORMS[idx % len(FORMS)]
-    check_codes(ctx, vals[:16] if form == "pyint" else vals, form, mag)
-    if idx % 4 == 1 and form not in ("pyint", "0d"):
+    check_codes(ctx, vals[:16] if form in ("pyint", "npscalar") else vals, form, mag)
+    if idx % 4 == 1 and form not in ("pyint", "0d", "npscalar"):
         # arrays that merely LOOK like arange(L) from their two ends: symbol
         # indexes of a block that happens to start with 0 and end with L-1
         L = int(rng.integers(3, 65))
@@ -344,6 +351,17 @@ def case_biterrors(ctx, rng, idx):
             ctx.ev("bit-errors", np.array_equal(np.asarray(r), ref_el.sum(axis=ax)),
                    cls="axis", detail=lambda: {**d(), "axis": ax, "got": r,
                                                "want": ref_el.sum(axis=ax)})
+    if idx % 9 == 4 and kind in ("1d", "2d", "3d"):
+        # both index arrays unsigned 64-bit with the top bit in use
+        au = rng.integers(0, 2 ** 64, size=shape, dtype=np.uint64)
+        bu = rng.integers(0, 2 ** 64, size=shape, dtype=np.uint64)
+        want_u = sum((int(x) ^ int(y)).bit_count() for x, y in zip(au.ravel(), bu.ravel()))
+        okc, tu = ctx.call("bit-errors", MISC.count_bit_errors, au, bu,
+                           detail={"kind": kind, "dtype": "uint64-top-bit"})
+        if okc:
+            ctx.ev("bit-errors", int(tu) == want_u, cls="total:uint64",
+                   detail={"kind": kind, "got": int(tu), "want": want_u,
+                           "a": au.ravel()[:3], "b": bu.ravel()[:3]})
     okc, cb = ctx.call("count-bits", MISC.count_bits, a, detail=d)
     if okc:
         ctx.ev("count-bits", np.array_equal(np.asarray(cb),
